@@ -43,9 +43,91 @@ type c11model struct {
 	OmitW    int
 }
 
+// c11Sweep: a hyper-parameter sweep. ONE optimizer and ONE layer variable (`fc = *newFC`: the parameters of every model live at the
+// same two addresses) serve several models of different widths, each trained for a few steps. Every update follows w <- w - lr * g
+// with g the gradient the back-propagation left on that weight (read just before the update).
+func c11Sweep(k *fw.K) {
+	r := k.Rng
+	lr := []float64{0.05, 0.5, 0.01}[r.Intn(3)]
+	opt := optimizers.NewSGD(&optimizers.SGDConfig{LearningRate: lr})
+	D := 1 + r.Intn(3)
+	var fc layers.FC
+	widths := []int{1 + r.Intn(4), 1 + r.Intn(4), 1 + r.Intn(4)}
+	k.Case = map[string]any{"family": "width sweep with one optimizer and one layer variable", "features": D, "widths": widths, "lr": lr}
+	k.Key("sweep/%d/%v", D, widths)
+	k.Count("width_sweeps", 1)
+	loss := lossObj("mse")
+	for mi, O := range widths {
+		built, err := layers.NewFC(&layers.FCConfig{Inputs: D, Outputs: O})
+		if err != nil || built == nil {
+			k.Failf("NewFC(%d -> %d): %v", D, O, err)
+			return
+		}
+		fc = *built // the same variable: Weights() of every model points at the same two fields
+		for step := 0; step < 1+r.Intn(3); step++ {
+			x := rt.MustLeaf(RandT(r, []int{1, D}, -1, 1), false)
+			t := rt.MustLeaf(RandT(r, []int{O}, -1, 1), false)
+			var perr error
+			if p := call(func() {
+				y, e := fc.Forward(x)
+				if e != nil {
+					perr = e
+					return
+				}
+				if y, e = y.Tanh().Flatten(0); e != nil {
+					perr = e
+					return
+				}
+				l, e := loss.Compute(y, t)
+				if e != nil {
+					perr = e
+					return
+				}
+				perr = tensor.BackPropagate(l)
+			}); p != nil || perr != nil {
+				k.Failf("model %d (width %d) step %d: forward / backward failed: panic=%v err=%v", mi, O, step, p, perr)
+				return
+			}
+			for wi, wp := range fc.Weights() {
+				g := (*wp.Value).Gradient()
+				if g == nil {
+					k.Failf("model %d (width %d) step %d: weight %d received no gradient", mi, O, step, wi)
+					return
+				}
+				wv, e1 := rt.Read(*wp.Value)
+				gv, e2 := rt.Read(g)
+				if e1 != nil || e2 != nil {
+					k.Failf("model %d step %d: weight / gradient unreadable (%v %v)", mi, step, e1, e2)
+					return
+				}
+				var uerr error
+				if p := call(func() { uerr = opt.Update(wp.Value) }); p != nil || uerr != nil {
+					k.Failf("model %d of a sweep (width %d, after widths %v) step %d: Update(weight %d) through the shared optimizer failed: panic=%v err=%v", mi, O, widths[:mi], step, wi, p, uerr)
+					return
+				}
+				nv, e3 := rt.Read(*wp.Value)
+				if e3 != nil || !ref.SameShape(nv.Shape, []int{O}) {
+					k.Failf("model %d (width %d) step %d: weight %d after the update has shape %v (%v)", mi, O, step, wi, nv, e3)
+					return
+				}
+				for i := range nv.Data {
+					if !sgdStepValue(nv.Data[i], wv.Data[i], lr, gv.Data[i]) {
+						k.Failf("model %d (width %d) step %d: weight %d element %d = %v, expected w - lr*g = %v - %v*%v", mi, O, step, wi, i, nv.Data[i], wv.Data[i], lr, gv.Data[i])
+						return
+					}
+				}
+				(*wp.Value).ResetGradContext(true)
+			}
+		}
+	}
+}
+
 func runC11(c *fw.Ctx) {
 	for i := 0; i < c.Pick(8000, 300000); i++ {
 		c.Case(func(k *fw.K) { c11History(k, c.Quick()) })
+	}
+	for i := 0; i < c.Pick(400, 8000); i++ {
+		c.Case(func(k *fw.K) { c11Sweep(k) })
 	}
 }
 
@@ -124,6 +206,9 @@ func c11History(k *fw.K, quick bool) {
 
 	sharedFull := m.Variant == "plain" && r.Intn(3) == 0
 	if sharedFull {
+		if q := r.Intn(4); q < 2 {
+			w0.Data[0] = float64(q) // the two constants that have constructors of their own: 0 and 1
+		}
 		for i := range w0.Data {
 			w0.Data[i], b0.Data[i] = w0.Data[0], w0.Data[0]
 		}
